@@ -1,7 +1,7 @@
 #!/bin/bash
 # usage: tools/allseeds.sh [name ...]   -- applies every kept seeded change in turn, runs the check(s) that must catch it
 # (property of the seed, or the one named in CAUGHT_BY below), restores /repo, prints one line per seed.
-declare -A CAUGHT_BY=( [c05b]=C06 [c07a]=C14 [c02b]=C15 )
+declare -A CAUGHT_BY=( [c05b]=C06 [c07a]=C14 [c02b]=C15 [c02c]=C07 )
 cd /verif
 names=${@:-$(ls seeded)}
 for n in $names; do
